@@ -189,10 +189,17 @@ def sideUnit (b : Block) : Unit := ⟨.C, .tx, [.set (.block b.id) (.blk b)]⟩
 def markerOf (start best top : Block) : Marker :=
   ⟨start.id, start.no, best.id, best.no, top.id, top.no⟩
 
+def insertAsc (x : Nat) : List Nat → List Nat
+  | [] => [x]
+  | y :: ys => if x ≤ y then x :: y :: ys else y :: insertAsc x ys
+
+/-- Insertion sort, ascending (structural recursion, so that sample values evaluate in the kernel). -/
+def sortAsc (l : List Nat) : List Nat := l.foldr insertAsc []
+
 /-- Transactions of the old branch that the new branch does not contain (`swapTxMapping`: the map `oldTxs`
 after the deletions); the Go loop ranges over a map, the canonical order here is ascending. -/
 def oldOnlyTxs (old new : List Block) : List Nat :=
-  ((old.flatMap (·.txs)).filter (fun t => !(new.flatMap (·.txs)).contains t)).mergeSort (· ≤ ·)
+  sortAsc ((old.flatMap (·.txs)).filter (fun t => !(new.flatMap (·.txs)).contains t))
 
 /-- `swapChainMapping` (ChainDB): one bulk — heights of the new branch ascending, latest, consensus status. -/
 def mappingUnit (new : List Block) (top : Block) : Unit :=
